@@ -114,16 +114,31 @@ def victim(ctx, P, views):
         for x in ast.walk(fn):
             if isinstance(x, ast.Assign) and least and x.value is least[0]:
                 least_var = unparse(x.targets[0])
-        cmp_ok = False
-        for x in ast.walk(fn):
-            if isinstance(x, ast.If) and "priority_class" in unparse(x.test) and least_var and least_var in unparse(x.test):
-                f = guards.norm(x.test, unparse)
-                cmp_ok = f == ("lt", "%s.priority_class" % newcomer, least_var)
-                if not cmp_ok:
-                    problems.append(("priority-comparison", "pre-empt iff newcomer.priority_class < least priority in service (strict): found `%s`" % unparse(x.test)))
-                    cmp_ok = True
-        if not cmp_ok:
+        # path-based: preempt(...) is reached exactly under  priority_preempt  and  newcomer.priority_class < least  (strict)
+        w = Walker(P, view, keep=lambda e: e.kind == "guard" or (e.kind == "call" and e.d["meth"] == "preempt"), track=lambda t, f: True, inline=rules.new_helper)
+        want_cmp = ("lt", "%s.priority_class" % newcomer, least_var)
+        want_opt = ("truth", "self.priority_preempt")
+        cmp_bad = opt_bad = None
+        npre = 0
+        for st in w.paths_of(cls, fn):
+            if st.status == "raise":
+                continue
+            idx = [i for i, e in enumerate(st.events) if e.kind == "call" and e.d["meth"] == "preempt"]
+            if idx:
+                npre += 1
+                pc = rules.path_condition(st.events, idx[0])
+                if least_var and pc.get(want_cmp) is not True:
+                    cmp_bad = cmp_bad or (st, "preempt is reached without `%s.priority_class < %s` (strict)" % (newcomer, least_var))
+                if pc.get(want_opt) is not True:
+                    opt_bad = opt_bad or st
+            else:
+                pc = rules.path_condition(st.events, len(st.events))
+                if least_var and pc.get(want_cmp) is not False and pc.get(want_opt) is not False:
+                    cmp_bad = cmp_bad or (st, "a path with the option set and newcomer.priority_class < %s not refuted ends without preempt" % least_var)
+        if least_var is None or npre == 0:
             problems.append(("priority-comparison", "comparison of the newcomer's priority with the least priority in service not found"))
+        elif cmp_bad:
+            problems.append(("priority-comparison", "pre-empt iff newcomer.priority_class < least priority in service (strict): %s [%s]" % (cmp_bad[1], "; ".join(witness(cmp_bad[0])[:6]))))
         # the filter for the least-prioritised individuals uses equality with least
         comps = [x for x in ast.walk(fn) if isinstance(x, ast.ListComp) and "self.servers" in unparse(x)]
         if not any(least_var and ("== %s" % least_var) in unparse(c) and unparse(c.elt).endswith(".cust") for c in comps):
@@ -139,10 +154,8 @@ def victim(ctx, P, views):
         ob.ok("%s.decide_preempt" % view.name, "least=%s; cmp strict; pick=max(start date)" % least_var)
         for reason, msg in problems:
             ctx.violation(ob, "R6.victim", "%s.decide_preempt" % cls.name, reason, reason, msg, loc(fn))
-        # guard: only under priority_preempt
-        f = [x for x in fn.body if isinstance(x, ast.If)]
-        if not f or guards.norm(f[0].test, unparse) != ("truth", "self.priority_preempt"):
-            ctx.violation(ob, "R6.victim", "%s.decide_preempt" % cls.name, "priority_preempt guard", "not-under-option", "pre-emption must only happen when priority_preempt is set", loc(fn))
+        if opt_bad is not None:
+            ctx.violation(ob, "R6.victim", "%s.decide_preempt" % cls.name, "priority_preempt guard", "not-under-option", "pre-emption must only happen when priority_preempt is set", loc(fn), witness(opt_bad))
 
 
 READS_OF_RECORD = ("service_start_date", "arrival_date", "original_service_time", "server", "queue_size_at_arrival", "queue_size_at_departure", "previous_class", "original_class")
